@@ -77,6 +77,13 @@ func (w *originWalker) value(v ssa.Value, at ssa.Instruction, chain []ssa.CallIn
 		}
 	case *ssa.ChangeType:
 		w.value(x.X, at, chain, d)
+	case *ssa.Parameter:
+		// a parameter of a callee entered through the chain: the caller's argument
+		if arg, call, ok := chainArg(chain, x); ok {
+			w.value(arg, call.(ssa.Instruction), chain[:len(chain)-1], d+1)
+			return
+		}
+		w.opaque(v, at, chain)
 	case *ssa.Convert:
 		// a conversion into the enum type from something else: opaque (enum-closure reports it)
 		w.opaque(v, at, chain)
@@ -130,6 +137,62 @@ func (w *originWalker) call(c *ssa.Call, idx int, at ssa.Instruction, chain []ss
 	}
 }
 
+// chainArg maps parameter p of the function entered by the last call of chain to that call's argument.
+func chainArg(chain []ssa.CallInstruction, p *ssa.Parameter) (ssa.Value, ssa.CallInstruction, bool) {
+	if len(chain) == 0 {
+		return nil, nil, false
+	}
+	call := chain[len(chain)-1]
+	callee := call.Common().StaticCallee()
+	if callee == nil || callee != p.Parent() {
+		return nil, nil, false
+	}
+	for i, q := range callee.Params {
+		if q == p && i < len(call.Common().Args) {
+			return call.Common().Args[i], call, true
+		}
+	}
+	return nil, nil, false
+}
+
+// identityArg: if call is a static call of a module function every return of which yields (as result 0) one and the same
+// parameter of that function, the corresponding argument is returned (helpers that return the slice they were given).
+func identityArg(call *ssa.Call) (ssa.Value, bool) {
+	callee := call.Call.StaticCallee()
+	if callee == nil || callee.Blocks == nil || !prog.InModule(callee) || call.Call.IsInvoke() {
+		return nil, false
+	}
+	var p *ssa.Parameter
+	rets := an.Returns(callee)
+	if len(rets) == 0 {
+		return nil, false
+	}
+	for _, ret := range rets {
+		if len(ret.Results) == 0 {
+			return nil, false
+		}
+		v := an.Result(ret, 0)
+		for {
+			if ct, ok := v.(*ssa.ChangeType); ok {
+				v = ct.X
+				continue
+			}
+			break
+		}
+		q, ok := v.(*ssa.Parameter)
+		if !ok || (p != nil && q != p) {
+			return nil, false
+		}
+		p = q
+	}
+	for i, q := range callee.Params {
+		if q == p && i < len(call.Call.Args) {
+			return call.Call.Args[i], true
+		}
+	}
+	return nil, false
+}
+
 // sliceRoot resolves a slice-typed value to its allocation root (MakeSlice / Call / Parameter / ...).
 func sliceRoot(s ssa.Value) ssa.Value {
 	for i := 0; i < 8; i++ {
@@ -146,6 +209,12 @@ func sliceRoot(s ssa.Value) ssa.Value {
 			s = x.X
 		case *ssa.Slice:
 			s = x.X
+		case *ssa.Call:
+			if a, ok := identityArg(x); ok {
+				s = a
+				continue
+			}
+			return s
 		default:
 			return s
 		}
@@ -167,6 +236,12 @@ func sliceRootExact(s ssa.Value) ssa.Value {
 			return s
 		case *ssa.ChangeType:
 			s = x.X
+		case *ssa.Call:
+			if a, ok := identityArg(x); ok {
+				s = a
+				continue
+			}
+			return s
 		default:
 			return s
 		}
@@ -276,6 +351,12 @@ func (w *originWalker) elems(s ssa.Value, at ssa.Instruction, chain []ssa.CallIn
 		}
 	case *ssa.Const:
 		// nil slice: no elements
+	case *ssa.Parameter:
+		if arg, call, ok := chainArg(chain, x); ok {
+			w.elems(arg, call.(ssa.Instruction), chain[:len(chain)-1], d+1)
+			return
+		}
+		w.opaque(root, at, chain)
 	case *ssa.Alloc:
 		// slice literal: new [N]T; &t[i] = v; slice t[:]
 		if _, isArr := x.Type().(*types.Pointer).Elem().Underlying().(*types.Array); !isArr {
